@@ -92,7 +92,7 @@ def run_overlap(params, prefix):
     x = dsched.run_one(lambda loop, s: go(), prefix, horizon=8000, want_env=True)
     viol = []
     sig0 = {'pre': params['pre'], 'c0': params['c0'], 'c1': params['c1'], 'u0': params['u0'], 'u1': params['u1']}
-    out = {'points': x.points, 'err': None, 'order': hash(tuple(store.calls))}
+    out = {'points': x.points, 'err': None, 'order': explore.canon_order(store.calls)}
     if x.err is not None:
         out['err'] = 'hang' if isinstance(x.err, dsched.Hang) else ('capped' if isinstance(x.err, dsched.Horizon) else 'diverged')
         out['errmsg'] = str(x.err)[:200]
